@@ -15,7 +15,7 @@ use std::rc::Rc;
 struct Obs {
     text: Vec<(String, bool, usize, usize)>,                       // chunk, last, a, b
     comments: Vec<(String, usize, usize)>,
-    tags: Vec<(String, Vec<(String, String, Option<(usize, usize)>, Option<(usize, usize)>)>, usize, usize)>,
+    tags: Vec<(String, Vec<(String, String, Option<(usize, usize)>, Option<(usize, usize)>, String)>, usize, usize, String)>,
     sink: Vec<(Option<&'static Encoding>, Vec<u8>)>,               // set_encoding(e) | chunk
 }
 struct Sink(Rc<RefCell<Obs>>);
@@ -70,8 +70,8 @@ pub fn run_case(line: &str) {
     let settings = Settings::new()
         .append_element_content_handler((Cow::Owned("*".parse::<Selector>().unwrap()), ElementContentHandlers::default().element(move |e: &mut Element<'_, '_>| {
             let (a, b) = rng(e.source_location());
-            let attrs = e.attributes().iter().map(|x| (x.name_preserve_case(), x.value(), x.name_source_location().map(rng), x.value_source_location().map(rng))).collect();
-            o1.borrow_mut().tags.push((e.tag_name_preserve_case(), attrs, a, b));
+            let attrs = e.attributes().iter().map(|x| (x.name_preserve_case(), x.value(), x.name_source_location().map(rng), x.value_source_location().map(rng), x.name())).collect();
+            o1.borrow_mut().tags.push((e.tag_name_preserve_case(), attrs, a, b, e.tag_name()));
             if let Some(s) = &ins2 { e.before(s, ContentType::Html); }
             Ok(())
         })))
@@ -109,12 +109,19 @@ pub fn run_case(line: &str) {
     // ---- the encoding in force at an input offset: enc0 until the end of the first effective <meta charset> start tag
     let mut switch: Option<(usize, &'static Encoding)> = None;
     if meta {
-        for (name, attrs, _a, b) in &o.tags {
+        for (name, attrs, _a, b, _) in &o.tags {
             if !name.eq_ignore_ascii_case("meta") { continue; }
-            let cs = attrs.iter().find(|x| x.0.eq_ignore_ascii_case("charset"));
-            if attrs.iter().any(|x| x.0.eq_ignore_ascii_case("http-equiv")) && cs.is_none() { switch = Some((usize::MAX, enc0)); break; }   // not generated; be safe
-            if let Some(x) = cs {
-                if let Some(e) = Encoding::for_label_no_replacement(x.1.as_bytes()).filter(|e| AsciiCompatibleEncoding::new(e).is_some()) { switch = Some((*b, e)); break; }
+            let get = |n: &str| attrs.iter().find(|x| x.0.eq_ignore_ascii_case(n)).map(|x| x.1.clone());
+            // <meta charset=label>, else <meta http-equiv=content-type content="...; charset=label">; only ASCII-compatible encodings count
+            let mut label: Option<String> = get("charset").filter(|l| Encoding::for_label_no_replacement(l.as_bytes()).is_some_and(|e| AsciiCompatibleEncoding::new(e).is_some()));
+            if label.is_none() && get("http-equiv").is_some_and(|h| h.eq_ignore_ascii_case("content-type")) {
+                if let Some(c) = get("content") {
+                    let lc = c.to_ascii_lowercase();
+                    if let Some(p) = lc.find("charset=") { label = Some(c[p + 8..].split(|ch: char| ch == ';' || ch.is_ascii_whitespace()).next().unwrap_or("").trim_matches(|ch| ch == '"' || ch == '\'').to_string()); }
+                }
+            }
+            if let Some(l) = label {
+                if let Some(e) = Encoding::for_label_no_replacement(l.as_bytes()).filter(|e| AsciiCompatibleEncoding::new(e).is_some()) { switch = Some((*b, e)); break; }
             }
         }
     }
@@ -164,13 +171,15 @@ pub fn run_case(line: &str) {
             }
         }
         // ---- tag names and attributes
-        for (name, attrs, a, b) in &o.tags {
+        for (name, attrs, a, b, lname) in &o.tags {
             if *b > input.len() { continue; }
+            if *lname != name.to_ascii_lowercase() { bad.push(format!("tag at {a}: tag_name() = {:?} is not the ASCII-lowercased tag_name_preserve_case() {:?}", trunc(lname), trunc(name))); }
             let mut k = a + 1;
             while k < *b && !matches!(input[k], b'\t' | b'\n' | 0x0c | b'\r' | b' ' | b'/' | b'>') { k += 1; }
             let reference = dec(*a, a + 1, k);
             if *name != reference { bad.push(format!("tag at {a}: tag_name_preserve_case() = {:?}, decode of its bytes = {:?}", trunc(name), trunc(&reference))); }
-            for (an, av, nl, vl) in attrs {
+            for (an, av, nl, vl, aln) in attrs {
+                if *aln != an.to_ascii_lowercase() { bad.push(format!("attribute at {a}: name() = {:?} is not the ASCII-lowercased name_preserve_case() {:?}", trunc(aln), trunc(an))); }
                 if let Some((x, y)) = nl { let r = dec(*a, *x, *y); if *an != r { bad.push(format!("attribute name at {x}..{y}: {:?} vs decode {:?}", trunc(an), trunc(&r))); } }
                 if let Some((x, y)) = vl { let r = dec(*a, *x, *y); if *av != r { bad.push(format!("attribute value at {x}..{y}: {:?} vs decode {:?}", trunc(av), trunc(&r))); } }
             }
